@@ -19,7 +19,7 @@ COMMON = ["-std=gnu++20", "-I" + os.path.join(REPO, "include"), "-I" + VERIF, "-
           "-g1", "-fno-omit-frame-pointer", "-no-pie", "-fno-pie", "-Wno-deprecated-declarations"]
 GSAN = ["-O1", "-DCNL_DEBUG", "-fsanitize=address,undefined,float-cast-overflow,float-divide-by-zero",
         "-fsanitize-undefined-trap-on-error"]
-CSAN = ["-O1", "-DCNL_DEBUG", "-fsanitize=address,undefined,float-cast-overflow,float-divide-by-zero",
+CSAN = ["-O1", "-DCNL_DEBUG", "-gdwarf-4", "-fsanitize=address,undefined,float-cast-overflow,float-divide-by-zero",
         "-fsanitize-trap=undefined,float-cast-overflow,float-divide-by-zero", "-fno-sanitize=object-size,function,vptr"]
 GUB = ["-O1", "-DCNL_DEBUG", "-fsanitize=undefined,float-cast-overflow,float-divide-by-zero",
        "-fsanitize-undefined-trap-on-error"]
@@ -335,6 +335,9 @@ class Result:
                 new.append(v)
         self.nontrivial = sum(self.per_kernel_nontrivial.values())
         os.makedirs(os.path.join(VERIF, "replays"), exist_ok=True)
+        os.makedirs(os.path.join(CACHE, "logs"), exist_ok=True)
+        with open(os.path.join(CACHE, "logs", "%s-violations.json" % self.prop), "w") as f:
+            json.dump([{k: v[k] for k in v if k != "binary"} for v in self.violations], f, indent=1)
         lines = []
         seen = set()
         for v in new:
